@@ -73,7 +73,8 @@ def directional_check(ctx, cost, x, grad, v, bucket, what, rtol=1e-6, atol=0.0):
     # absolute floor: both essentially zero
     gnorm = float(np.linalg.norm(grad) * np.linalg.norm(v))
     ok = best <= rtol or (abs(pred) <= 1e-9 * max(gnorm, 1e-300) and all(abs(c) <= 1e-7 * max(gnorm, 1e-12) for c in cands)) \
-        or (atol > 0 and all(abs(c - pred) <= atol for c in cands))
+        or (atol > 0 and min(abs(c - pred) for c in cands) <= atol)     # the finite-difference estimates converge as the step shrinks: at an exact-fit
+        # minimum the coarse steps keep a third-order residue of ~1e-9 while the fine ones reach 1e-13 (a wrong gradient misses every estimate)
     ctx.require(np.isfinite(pred) and ok, bucket, '%s: Re<grad,v>=%.10g but directional derivative=%r (rel mismatch %.3g)' % (what, pred, cands, best))
 
 
@@ -456,7 +457,9 @@ def strat_cost(tier):
                                   'fn': st.sampled_from(['mse', 'nll', 'bgi']), 'mask': st.sampled_from(['none', 'random', 'all']),
                                   'yhat_scalar': st.booleans(), 'seed': U.seeds,
                                   # bad pixels: samples the mask excludes hold NaN / inf in the data or in the model ("False where it should not" contribute)
-                                  'bad': st.sampled_from(['none', 'none', 'nan-in-data', 'inf-in-data', 'nan-in-model', 'inf-in-model'])})
+                                  'bad': st.sampled_from(['none', 'none', 'nan-in-data', 'inf-in-data', 'nan-in-model', 'inf-in-model']),
+                                  # the model and the data are one and the same array object (an exact fit handed over without a copy)
+                                  'twin': st.sampled_from([False, False, False, True])})
 
 
 def _spoil(a, mask, how, which):
@@ -493,6 +496,9 @@ def check_cost(case, ctx):
     if fn == 'mse':
         M, D = r.uniform(-1, 1, shape), r.uniform(-1, 1, shape)
         M, D = _spoil(M, mask, bad, 'model'), _spoil(D, mask, bad, 'data')
+        if case.get('twin') and bad == 'none':
+            D = M
+            ctx.label('model-is-data')
         c, g = ctx.call(C.mean_square_error, M, D, mask)
         f = lambda m: float(C.mean_square_error(m, D, mask)[0])   # noqa
         x = M
@@ -503,6 +509,9 @@ def check_cost(case, ctx):
         yy = r.uniform(0.05, 0.95, shape)
         yhat = float(r.uniform(0.1, 0.9)) if case['yhat_scalar'] else r.uniform(0.05, 0.95, shape)
         yy, yhat = _spoil(yy, mask, bad, 'model'), _spoil(yhat, mask, bad, 'data')
+        if case.get('twin') and bad == 'none' and isinstance(yhat, np.ndarray):
+            yhat = yy
+            ctx.label('model-is-data')
         c, g = ctx.call(C.negative_loglikelihood, yy, yhat, mask)
         f = lambda m: float(C.negative_loglikelihood(m, yhat, mask)[0])   # noqa
         x = yy
@@ -510,6 +519,9 @@ def check_cost(case, ctx):
         I = r.uniform(0.1, 2, shape)
         D = 1.7 * I + 0.3 + 0.2 * r.uniform(-1, 1, shape)
         I, D = _spoil(I, mask, bad, 'model'), _spoil(D, mask, bad, 'data')
+        if case.get('twin') and bad == 'none':
+            D = I
+            ctx.label('model-is-data')
         c, g = ctx.call(C.bias_and_gain_invariant_error, I, D, mask)
         f = lambda m: float(C.bias_and_gain_invariant_error(m, D, mask)[0])   # noqa
         x = I
